@@ -57,6 +57,11 @@ def m_npfloat(y_true, y_pred, **kw):
     return np.float64(m_lin(y_true, y_pred, **kw)) / np.float64(len(y_true))
 
 
+def m_tiny(y_true, y_pred, **kw):
+    """The additive metric on the scale of 1e-10 (e.g. a mean squared error of a near-perfect regressor)."""
+    return 1e-10 * m_lin(y_true, y_pred, **kw)
+
+
 def m_const(y_true, y_pred, **kw):
     """Constant over the rows: every resample and every group gives the same value."""
     return 3.5
@@ -69,9 +74,9 @@ def _fl(name):
 
 
 def metric_callable(key):
-    if key in ("lin", "max", "wmean", "npint", "npfloat", "const"):
+    if key in ("lin", "max", "wmean", "npint", "npfloat", "const", "tiny"):
         return {"lin": m_lin, "max": m_max, "wmean": m_wmean, "npint": m_npint, "npfloat": m_npfloat,
-                "const": m_const}[key]
+                "const": m_const, "tiny": m_tiny}[key]
     if key in ("count", "selection_rate", "mean_prediction", "true_positive_rate", "false_positive_rate",
                "true_negative_rate", "false_negative_rate"):
         return _fl(key)
@@ -90,6 +95,7 @@ METRIC_PARAMS = {
     "npfloat": ["sample_weight", "p"],
     "wmean": ["sample_weight"],
     "const": ["p"],
+    "tiny": ["sample_weight", "p"],
     "count": [],
     "selection_rate": ["sample_weight"],
     "mean_prediction": ["sample_weight"],
@@ -104,7 +110,7 @@ METRIC_NAMES = ["a", "b", "a_b", "m"]
 
 
 @st.composite
-def mf_case(draw, metric_keys=("lin", "max", "npint", "npfloat", "count", "selection_rate", "wmean"),
+def mf_case(draw, metric_keys=("lin", "max", "npint", "npfloat", "count", "selection_rate", "wmean", "tiny"),
             max_sf=3, max_cf=2, max_rows=24, y_mode=None, allow_collisions=True, force_params=False,
             weights=gen.real_weights):
     n_sf = draw(st.sampled_from([k for k in (1, 1, 2, 2, 3) if k <= max_sf]))
@@ -288,7 +294,9 @@ def ref_metric(item, case, mask):
     return f(yt, yp, **kw)
 
 
-def close(a, b, tol=1e-9):
+def close(a, b, tol=1e-9, scale=None):
+    """|a - b| <= tol * max(1, |a|, |b|); with ``scale`` given the tolerance is tol * scale instead (scale =
+    magnitude of the operands the value was computed from - so that tiny-valued metrics are compared relatively)."""
     if a is None or b is None:
         return False
     try:
@@ -299,6 +307,8 @@ def close(a, b, tol=1e-9):
         return math.isnan(fa) and math.isnan(fb)
     if math.isinf(fa) or math.isinf(fb):
         return fa == fb
+    if scale is not None:
+        return abs(fa - fb) <= tol * scale
     return abs(fa - fb) <= tol * max(1.0, abs(fa), abs(fb))
 
 
